@@ -112,6 +112,18 @@ def check(run):
         pts = np.array([[core.snap(rng.uniform(-2, 2), 10) for _ in range(3)] for _ in range(3)])
         one_case(run, specs, t, gamma, pts, a, b)
         run.count("zero-diagonal density matrix")
+    # every quantity is linear in the density matrix: matrices of small magnitude (first-order response, density differences,
+    # anything scaled by 1e-9) whose off-diagonal elements are tiny in absolute terms but not next to the diagonal
+    for n, (a, b, scale) in enumerate([(1, 0, 1e-9), (0.3, 0.75, 1e-9), (0, 1.5, 1e-12), (0.5, -2.0, 1e-10)] if quick else
+                                      [(a_, b_, sc_) for (a_, b_) in params[:8] for sc_ in (1e-9, 1e-12)]):
+        specs = random_basis(rng, 1, 2, lmax=2, exp_hi=10.0)
+        nb = sum(s.size for s in specs)
+        t = random_transform(rng, nb) if n % 2 else None
+        m = nb if t is None else t.shape[0]
+        gamma = random_symmetric(rng, m, psd=(n % 2 == 0)) * scale
+        pts = np.array([[core.snap(rng.uniform(-2, 2), 10) for _ in range(3)] for _ in range(3)])
+        one_case(run, specs, t, gamma, pts, a, b)
+        run.count("density matrix of magnitude %g" % scale)
     from checks import c09 as _c09
     _c09.positional_arguments_case(run, rng, only=('stress', 'ehrenfest'))
     representation_cases(run)
